@@ -565,7 +565,7 @@ Section Entries.
   Lemma hit_ok rec c pos k e e' : cache_ok c -> nth_error es k = Some e ->
     cache_get c (off_of k) = Some e' ->
     parse_entry_at_body self rec c pos (off_of k)
-    = Ok (view_entry s (off_of k) e, c, pos + entry_size s e).
+    = Ok (view_entry s (off_of k) e, c, off_of k + entry_size s e).
   Proof.
     intros Hc Hk H. destruct (cache_hit c k e e' Hc Hk H) as [-> Hne].
     unfold parse_entry_at_body. rewrite H, (extent_view _ _ Hne). reflexivity.
@@ -676,11 +676,11 @@ Section Entries.
     nth_error es k = Some (SCie c0) -> cache_ok cc ->
     exists cc' pos',
       parse_entry_at_body self rec cc pos (off_of k) = Ok (view_cie s (off_of k) c0, cc', pos')
-      /\ cache_ok cc' /\ (pos = off_of k -> pos' = off_of k + entry_size s (SCie c0)).
+      /\ cache_ok cc' /\ pos' = off_of k + entry_size s (SCie c0).
   Proof.
     intros Hk Hc. destruct (cache_get cc (off_of k)) as [e'|] eqn:E.
     - rewrite (hit_ok rec cc pos k _ e' Hc Hk E). eexists; eexists. split; [reflexivity|].
-      split; [exact Hc|]. intros ->. reflexivity.
+      split; [exact Hc|]. reflexivity.
     - rewrite (cie_miss_ok rec cc pos k c0 Hk E). eexists; eexists. split; [reflexivity|].
       split; [|reflexivity]. apply (cache_ok_set cc k (SCie c0) Hc Hk). discriminate.
   Qed.
@@ -1097,7 +1097,7 @@ Section Entries.
     destruct e as [c|f|].
     - destruct (cie_at_ok (parse_entry_at self (S fuel)) cc (off_of k) k c Hk Hc)
         as (cc' & pos' & E & Hc' & Hpos).
-      exists cc'. rewrite E, (Hpos eq_refl). split; [reflexivity|exact Hc'].
+      exists cc'. rewrite E, Hpos. split; [reflexivity|exact Hc'].
     - destruct (cache_get cc (off_of k)) as [e'|] eqn:Eg.
       + rewrite (hit_ok _ cc (off_of k) k _ e' Hc Hk Eg). exists cc. split; [reflexivity|exact Hc].
       + destruct (fde_miss_ok (parse_entry_at self (S fuel)) cc (off_of k) k f (rec_ok_fuel fuel)
